@@ -918,6 +918,15 @@ impl<Front: SocketHandler + std::fmt::Debug, L: ListenerHandler + L7ListenerHand
                 MuxResult::Continue => {}
                 MuxResult::CloseSession | MuxResult::Upgrade => return true,
             }
+            // This read runs outside `ready()`: what it queued for a backend (the
+            // last DATA of a request in flight) armed that backend's WRITABLE, and
+            // no epoll edge will follow for bytes already taken from the socket.
+            // Write it out now, or the request waits for the shutdown deadline.
+            for backend in self.router.backends.values_mut() {
+                if backend.readiness().filter_interest().is_writable() {
+                    let _ = backend.writable(&mut self.context, EndpointServer(&mut self.frontend));
+                }
+            }
         }
 
         if !force_h2_write
